@@ -580,7 +580,7 @@ def wellformed(header, orders):
             if not (p <= 0.0) or math.isnan(p):
                 bad.append(("positive-logprob", "log probability %r of %s" % (p, b" ".join(g))))
                 break
-            if b is not None and (math.isnan(b) or math.isinf(b)):
+            if b is not None and (math.isnan(b) or b == float('inf')):
                 bad.append(("bad-backoff", "back-off %r of %s" % (b, b" ".join(g))))
                 break
             if k > 1 and (g[:-1] not in tabs[k - 2] or g[1:] not in tabs[k - 2]):
